@@ -2,7 +2,9 @@ package main
 
 import (
 	"fmt"
+	"go/types"
 	"os"
+	"strings"
 
 	"golang.org/x/tools/go/ssa"
 )
@@ -131,4 +133,46 @@ func successReturn(rt *ssa.Return) bool {
 		}
 	}
 	return all
+}
+
+// c18Literals: the writer prints an enum symbol as its bare name and the words true / false for booleans.
+// The reader therefore may turn a bare token into a boolean only when it IS the writer's word: each
+// boolean constant boxed as the value of a token in readValue sits under an equality comparison of the
+// token with the constant "true" / "false" - not under a case-insensitive or otherwise widened test, which
+// would turn the symbols TRUE, False, ... into booleans.
+func c18Literals(c *Ctx, r *Report) {
+	r.rule("C18.LITERALS", "readValue boxes the constants true / false only under an equality test of the token with \"true\" / \"false\"")
+	fn := c.fn("(*parser).readValue")
+	if fn == nil {
+		r.undecided("C18.LITERALS", "anchor (*parser).readValue", 0, "not found")
+		return
+	}
+	n := 0
+	for _, b := range fn.Blocks {
+		for _, in := range b.Instrs {
+			// the boxed constant is a phi edge or a store operand: look for constants of type bool converted to interface
+			var consts []*ssa.Const
+			switch t := in.(type) {
+			case *ssa.MakeInterface:
+				if k, ok := t.X.(*ssa.Const); ok {
+					consts = append(consts, k)
+				}
+			}
+			for _, k := range consts {
+				bt, ok := k.Type().Underlying().(*types.Basic)
+				if !ok || bt.Info()&types.IsBoolean == 0 || k.Value == nil {
+					continue
+				}
+				want := k.Value.String()
+				n++
+				ok2 := hasGuard(b, func(g guard) bool {
+					_, lit, eq, isCmp := strConstCmp(g.cond)
+					return isCmp && lit == want && eq == g.val
+				})
+				r.check("C18.LITERALS", fmt.Sprintf("%s: the token read as %s is exactly %q", fnName(fn), want, want), in.Pos(), ok2,
+					"the boolean is produced under a test other than equality with the writer's word: a widened test (any letter case) turns enum symbols the writer prints bare, such as "+strings.ToUpper(want)+", into booleans on the way back")
+			}
+		}
+	}
+	r.floor("C18.LITERALS", "boolean constants produced by the value reader", n, 2)
 }
